@@ -132,6 +132,8 @@ pub fn profile() -> Profile {
     let mut p = Profile::general();
     p.p_mut = 60;
     p.max_txs = 7;
+    p.kind_w[7] = 4;
+    p.low_dosc_start = true;
     p
 }
 
